@@ -10,26 +10,26 @@ sys.path.insert(0, HERE)
 sys.dont_write_bytecode = True
 
 TECH = {
-    "C01": "def-use + call-binding + CFG exhaustiveness over Reader.read/__init__/__getitem__ (flow-sensitive raw-sample locals, backward slice of the returned voltages, index->slice conversion under an established consecutive run); conversion-vector layout by abstract interpretation (segment vectors over metadata counts); full-width fast-path rule (gains gathered, not scattered, with the channel order)",
-    "C02": "CFG dominance / ordering of producer-publish-unlink with an interprocedural staging summary (a callee handed the final name must write under a provably different name and publish by rename), dead-store dataflow, who-may-delete table, modular (stride-grid) normal forms of piecewise raw reads",
-    "C03": "polynomial tiling identity of the window writer, rounding-provenance dataflow, sibling scatter agreement, key symmetry, writer/parser agreement of the channel-subset string, split / group-by idiom models, window-state coherence (loop-carried dataflow), per-shank output-file model (entry keys, file effects, open modes: a file that is appended to must start empty)",
-    "C04": "CFG dominance of deletion by verification, typestate over an abstract verification state (flag / pending set / None), guard entailment, unlink tolerance, file-effect model of the prepare step (truncate / create-keep / append) against the writer's open mode; persisted-verification protocol (a flag in the shank metas counts only if written after the verification loop and removed before the shank files are rewritten)",
-    "C05": "call-binding forwarding completeness, group-by idiom model for per-collection rows, ordering (shift before spatial filter), sign normal form, finite-domain label sets, sibling agreement, argument-aliasing rule (numpy view model) for the header's delay vector; shared-state analyses (hand-rolled caches, cache-key completeness)",
+    "C01": "def-use + call-binding + CFG exhaustiveness over Reader.read/__init__/__getitem__ (flow-sensitive raw-sample locals, backward slice of the returned voltages, index->slice conversion under an established consecutive run); conversion-vector layout by abstract interpretation (segment vectors over metadata counts); full-width fast-path rule (gains gathered, not scattered, with the channel order); interprocedural selector-helper rule (returned alternatives: selector / permuted selector / slice of a regular run, sign of the slice stop)",
+    "C02": "CFG dominance / ordering of producer-publish-unlink with an interprocedural staging summary (a callee handed the final name must write under a provably different name and publish by rename), dead-store dataflow, who-may-delete table, modular (stride-grid) normal forms of piecewise raw reads; selector followed into helper methods and decompressed chunks (absolute origin of a chunk-local slice)",
+    "C03": "polynomial tiling identity of the window writer, rounding-provenance dataflow, sibling scatter agreement, key symmetry, writer/parser agreement of the channel-subset string, split / group-by idiom models, window-state coherence (loop-carried dataflow), per-shank output-file model (entry keys, file effects, open modes: a file that is appended to must start empty); column algebra of gather / scatter forms (np.take gathers, gathered blocks with cumulative bounds, stack + inverse permutation)",
+    "C04": "CFG dominance of deletion by verification, typestate over an abstract verification state (flag / pending set / None), guard entailment, unlink tolerance, file-effect model of the prepare step (truncate / create-keep / append) against the writer's open mode; persisted-verification protocol (a flag in the shank metas counts only if written after the verification loop and removed before the shank files are rewritten); run-wise verification model (run table = partition of its argument; coverage per shank; cut of the table)",
+    "C05": "call-binding forwarding completeness, group-by idiom model for per-collection rows, ordering (shift before spatial filter), sign normal form, finite-domain label sets, sibling agreement, argument-aliasing rule (numpy view model) for the header's delay vector; shared-state analyses (hand-rolled caches, cache-key completeness); label-form model of grouped referencing (member-based references, positional-block reductions)",
     "C06": "batch schedule model (while or for-range form; grid start, stride, bound = max_s - 2*taper per worker, last-worker test against the fan-out's count) with polynomial tiling/seek identities (exact polynomial division), taint / view-provenance dataflow of sync columns, fan-out binding; batch-ownership schedule form (partition of batch indices); definite binding of the worker closure's free variables (symtable + path-condition entailment between read, launch and bindings); loop progress (stride positivity entailed by a dominating guard)",
-    "C07": "path-sensitive substitution model of the phase factor: layout calculus (which axis every factor varies along, per path and per multiplication target), impulse / analytic ramp normal forms on the substituted exponent, argument-aliasing rule (numpy view model), transform-length rule, rounding-kind agreement of a whole/fraction shift split; roll-only path needs an exact whole-shift guard",
+    "C07": "path-sensitive substitution model of the phase factor: layout calculus (which axis every factor varies along, per path and per multiplication target), impulse / analytic ramp normal forms on the substituted exponent, argument-aliasing rule (numpy view model), transform-length rule, rounding-kind agreement of a whole/fraction shift split; roll-only path needs an exact whole-shift guard; interprocedural evaluation of library helpers inside the analytic ramp",
     "C08": "joint-permutation shape + ordering (ADC attributes before any restriction), lexsort key model, rational grid-inverse identity, generation table exhaustiveness, closed-form delay normal form, site-locality rule (no reduction over the saved sites feeds a coordinate)",
-    "C09": "conversion-vector layout by abstract interpretation (segment vectors with whole-table text columns and row selections ordered numerically vs lexicographically; all small count assignments), evaluated decision table of the max-int lookup with call-site guards, reader/writer token agreement, value tables; shared-state analyses (cached parses handed out as shallow copies, call-sensitive sharing)",
-    "C10": "symbolic bit-layout interpretation of split_sync (permutation), edge-index def-use and shape-unwrap rule in fronts/rises/falls, sync composition model (gathers of the raw file through locals and two-step indexing; digital / analog parts of read_sync and of read(sync=True)); guarded fast paths of split_sync (the guard must entail the dropped bits are zero)",
+    "C09": "conversion-vector layout by abstract interpretation (segment vectors with whole-table text columns and row selections ordered numerically vs lexicographically; all small count assignments), evaluated decision table of the max-int lookup with call-site guards, reader/writer token agreement, value tables; shared-state analyses (cached parses handed out as shallow copies, call-sensitive sharing); path forking on run-time predicates in the layout interpreter, uniform-gain claim and delimiter rule of its counting pattern",
+    "C10": "symbolic bit-layout interpretation of split_sync (permutation), edge-index def-use and shape-unwrap rule in fronts/rises/falls, sync composition model (gathers of the raw file through locals and two-step indexing; digital / analog parts of read_sync and of read(sync=True)); guarded fast paths of split_sync (the guard must entail the dropped bits are zero); sample-domain threshold model (algebra of the detection level, integer-cast rounding rule, preallocated layout)",
     "C11": "rounding-provenance dataflow of the frame count (shaped and whole-file 1-D mappings, items = bytes // itemsize, exposed frames = prefix reshape), CFG ordering of metadata rewrite before a shape-dependent memmap, dependence of the rewrite's path condition on unrelated options (truth-table); shared mapping objects (key stores on a mapping a memoised function hands out)",
     "C12": "polynomial tiling identity in LF samples with divisibility facts, sibling decimation agreement, buffer-identity / disjoint-range analysis, window-state coherence, metadata def-use, shared-object dataflow through attributes bound to memoised results",
-    "C13": "call-binding forwarding, padding-sentinel domain rule, offset normal forms, row-agreement def-use (block stores need an established consecutive run), linear normal form of the admissibility test, signedness rule, sorted-search grouping model; cover-end clause (last chunk ends at ns on every path to the fan-out)",
+    "C13": "call-binding forwarding, padding-sentinel domain rule, offset normal forms, row-agreement def-use (block stores need an established consecutive run), linear normal form of the admissibility test, signedness rule, sorted-search grouping model; cover-end clause (last chunk ends at ns on every path to the fan-out); NaN-aware template reduction rule; block gather and closed chunk edges",
     "C14": "index-bound rule, axis-discipline scan with mask / label kinds (emptiness test of a boolean mask vs truth of row labels), homogeneity-degree dataflow, relation-set abstract evaluation of pre/post masks, narrow-accumulator rule; row addressing (label write-back only with unique labels)",
-    "C15": "finite-domain (label-set) evaluation of row and donor selectors, CFG ordering of zeroing/threshold/normalisation for loop and matrix forms; shared-object dataflow through hand-rolled module-level caches",
-    "C16": "comparator structure (direct and block-accumulated) and value terms of straight-line numpy code with out= / in-place / view semantics (E14), backward slice of the mute gain, range rule, call-site column agreement, stale scratch-buffer dataflow; time-blocked scans (one-sample overlap between blocks for the slew test)",
-    "C17": "closed forms of the window generator by solving its loop-carried recurrences over the iteration number (local cursor / counter / mirrored attribute), cursor-locality rule, partition identity, count formula, interval-event model of the splicing amplitudes evaluated per window class; array-form generator model (precomputed bounds table, row count compared on a parameter box)",
-    "C19": "(partial) pairing discipline of the matched-index vectors (one mask), one-to-one second assignment pass (axis order, both row and column blanked), normal form of the reported linear map / drift / coarse offset; name-free rasters (flow-sensitive), identity fast-path model (acceptance must bound every pair)",
-    "C20": "(partial) chunk tiling identity of the Venn counter (searchsorted bounds, chunk count, re-basing), group / fold agreement in stack, index-range partition of the Savitzky-Golay loops, pad / crop identity of the frequency-domain smoother; chunk index range (first to last spike's chunk) by evaluation",
-    "C18": "transform-length rule, parity-split crop / take / arange identities (end-relative and absolute 'same' crops), un-padding bound versus transform length, fast-size table or enumeration model (one candidate per power of three, loop bound), filter algebra, half-spectrum length identities; shared-state rule for cached responses; band-pass identity on value terms",
+    "C15": "finite-domain (label-set) evaluation of row and donor selectors, CFG ordering of zeroing/threshold/normalisation for loop and matrix forms; shared-object dataflow through hand-rolled module-level caches; zero-divisor guard must wrap the normalising sum",
+    "C16": "comparator structure (direct and block-accumulated) and value terms of straight-line numpy code with out= / in-place / view semantics (E14), backward slice of the mute gain, range rule, call-site column agreement, stale scratch-buffer dataflow; time-blocked scans (one-sample overlap between blocks for the slew test); scatter-subtract model of the mute gain (tap offset, two-sided bounds filter), fraction as count / channels",
+    "C17": "closed forms of the window generator by solving its loop-carried recurrences over the iteration number (local cursor / counter / mirrored attribute), cursor-locality rule, partition identity, count formula, interval-event model of the splicing amplitudes evaluated per window class; array-form generator model (precomputed bounds table, row count compared on a parameter box); two-vector array form of the window table",
+    "C19": "(partial) pairing discipline of the matched-index vectors (one mask), one-to-one second assignment pass (axis order, both row and column blanked), normal form of the reported linear map / drift / coarse offset; name-free rasters (flow-sensitive), identity fast-path model (acceptance must bound every pair); selector-freshness typestate (a named selector of the matched events vs later stores into the match vector), helper parameters bound at call sites",
+    "C20": "(partial) chunk tiling identity of the Venn counter (searchsorted bounds, chunk count, re-basing), group / fold agreement in stack, index-range partition of the Savitzky-Golay loops, pad / crop identity of the frequency-domain smoother; chunk index range (first to last spike's chunk) by evaluation; partially-filled re-used buffer rule, vector-form coverage model of the smoother",
+    "C18": "transform-length rule, parity-split crop / take / arange identities (end-relative and absolute 'same' crops), un-padding bound versus transform length, fast-size table or enumeration model (one candidate per power of three, loop bound), filter algebra, half-spectrum length identities; shared-state rule for cached responses; band-pass identity on value terms; window-aware no-wrap condition evaluated on a box of lengths, module-level tables",
 }
 
 NA = {
